@@ -793,6 +793,11 @@ class Module:
             if '.' not in n:
                 continue
             sname, fname = n.split('.', 1)
+            if '|' in fname:
+                # members of one union with identical type, indistinguishable after the cast
+                for alt in fname.split('|'):
+                    self.check_fields(sname + '.' + alt)
+                continue
             st = self.structs.get(sname)
             if st is None:
                 from .frontend import AnalysisBroken
